@@ -1,7 +1,7 @@
 SPECIFICATION Spec
 CONSTANTS
-  Keys <- KeysT
-  MaxN = 6
+  Keys <- KeysQ
+  MaxN = 5
   BadParams <- BadQ
   BigTN <- BigT
   BaseLen = 3
